@@ -87,6 +87,7 @@ func checkC09(r *core.Run) {
 	r.Count("bounds_functions", len(ba.FuncsAnalysed))
 	c09Scope(r, p)
 	c09Canon(r, p, ba)
+	c09WriterRanges(r, p)
 	c09Workers(r, p, "R-C09-bounds")
 	// the block weight accumulated while decoding (shared with C05)
 	c05Weight(r, p, "R-C09-bounds")
@@ -170,7 +171,7 @@ func c09Scope(r *core.Run, p *core.Program) {
 // c09Canon: CompactSize readers return a multi-byte form only for values that need it.
 func c09Canon(r *core.Run, p *core.Program, ba *an.BoundsAnalysis) {
 	const rule = "R-C09-canon"
-	r.Rule(rule, "the slice-based CompactSize readers accept a 3/5/9-byte form only for values >= 0xfd / 0x10000 / 0x100000000 (and, for the int-returning reader, <= MaxInt64)")
+	r.Rule(rule, "the slice-based CompactSize readers accept a 3/5/9-byte form only for values >= 0xfd / 0x10000 / 0x100000000 (and, for the int-returning reader, <= MaxInt64); the writers and the size function change form at exactly those three values and put the marker 0xfd / 0xfe / 0xff in the matching range")
 	mins := map[int64]*big.Int{3: big.NewInt(0xfd), 5: big.NewInt(0x10000), 9: new(big.Int).Lsh(big.NewInt(1), 32)}
 	for _, name := range []string{"lib/btc.VLen", "lib/btc.VULe"} {
 		fn := p.Func(name)
@@ -427,4 +428,94 @@ func c09Workers(r *core.Run, p *core.Program, rule string) {
 	})
 	sort.Strings(bad)
 	r.Check(len(bad) == 0 && n >= 2 && trim, rule, "workers-get-parsed-transactions-only", p.Pos(fn.Pos()), fmt.Sprintf("%d worker starts, each with a bounded list or the trimmed list of the block", n), strings.Join(bad, "; "))
+}
+
+// c09WriterRanges: the CompactSize writers (and the size function the weight and size computations rely on)
+// switch to the 3-, 5- and 9-byte form at exactly 0xfd, 0x10000 and 0x100000000, and each range carries its
+// own marker byte.  Read as a chain of "value < K" tests from the function entry; "<=", ">" and ">=" forms
+// are normalised, so a rewrite with the same boundaries stays silent.
+func c09WriterRanges(r *core.Run, p *core.Program) {
+	const rule = "R-C09-canon"
+	full := []string{"253", "65536", "4294967296"}
+	for _, w := range []struct {
+		name  string
+		param int
+		n     int
+	}{{"lib/btc.PutVlen", 1, 2}, {"lib/btc.PutULe", 1, 3}, {"lib/btc.VLenSize", 0, 3}, {"lib/btc.WriteVlen", 1, 3}} {
+		fn := p.Func(w.name)
+		if fn == nil {
+			r.Fail(rule, "writer-ranges/"+w.name, "-", w.name+" not found")
+			continue
+		}
+		isParam := func(v ssa.Value) bool { return c17StripConv(v) == ssa.Value(fn.Params[w.param]) }
+		var ks, marks []string
+		bad := ""
+		markOf := func(b *ssa.BasicBlock) string {
+			// marker constants 0xfd..0xff stored as bytes in this block
+			m := map[string]bool{}
+			for _, i := range b.Instrs {
+				if st, ok := i.(*ssa.Store); ok {
+					if k, isC := an.ConstOf(st.Val); isC && k.IsInt64() && k.Int64() >= 0xfd && k.Int64() <= 0xff && an.TypeName(st.Val.Type()) == "byte" {
+						m[k.String()] = true
+					}
+				}
+			}
+			return an.TagList(m)
+		}
+		b := fn.Blocks[0]
+		for step := 0; step < 8; step++ {
+			iff, ok := b.Instrs[len(b.Instrs)-1].(*ssa.If)
+			if !ok {
+				break
+			}
+			x, y, rel, okC := an.CondCmp(iff.Cond)
+			if !okC {
+				break
+			}
+			small, large := b.Succs[0], b.Succs[1]
+			var k *big.Int
+			if kk, isC := an.ConstOf(y); isC && isParam(x) {
+				k = new(big.Int).Set(kk)
+			} else if kk, isC := an.ConstOf(x); isC && isParam(y) {
+				k = new(big.Int).Set(kk)
+				switch rel { // K rel x  ==  x rel' K
+				case token.LSS:
+					rel = token.GTR
+				case token.LEQ:
+					rel = token.GEQ
+				case token.GTR:
+					rel = token.LSS
+				case token.GEQ:
+					rel = token.LEQ
+				}
+			} else {
+				break
+			}
+			switch rel {
+			case token.LSS:
+			case token.LEQ:
+				k.Add(k, big.NewInt(1))
+			case token.GEQ:
+				small, large = large, small
+			case token.GTR:
+				k.Add(k, big.NewInt(1))
+				small, large = large, small
+			default:
+				bad = "the value is tested with " + rel.String() + " at " + p.Pos(iff.Cond.Pos())
+			}
+			ks = append(ks, k.String())
+			marks = append(marks, markOf(small))
+			b = large
+		}
+		marks = append(marks, markOf(b))
+		want := full[:w.n]
+		okK := bad == "" && strings.Join(ks, ",") == strings.Join(want, ",")
+		r.Check(okK, rule, "writer-ranges/"+w.name, p.Pos(fn.Pos()), "the forms change at "+strings.Join(want, ", "),
+			fmt.Sprintf("the encoded form changes at %s instead of %s %s", strings.Join(ks, ", "), strings.Join(want, ", "), bad))
+		if okK && w.name != "lib/btc.VLenSize" {
+			wantM := []string{"", "253", "254", "255"}[:w.n+1]
+			r.Check(strings.Join(marks, "|") == strings.Join(wantM, "|"), rule, "writer-markers/"+w.name, p.Pos(fn.Pos()), "ranges carry the markers none, 0xfd, 0xfe, 0xff in this order",
+				"marker bytes per range are "+strings.Join(marks, "|")+" instead of "+strings.Join(wantM, "|"))
+		}
+	}
 }
